@@ -22,14 +22,13 @@
 (* The opcode numbering, names and operand widths come from the exported   *)
 (* table (OPTAB).                                                          *)
 (***************************************************************************)
-EXTENDS NlValues, TLC, Json, IOUtils
+EXTENDS NlValues, TLC, NlRecs
 
-Recs  == ndJsonDeserialize(IOEnv.RECS)
 OpTab == ndJsonDeserialize(IOEnv.OPTAB)[1]
 
-VARIABLES pid, vm
+VARIABLE vm
 
-MaxVmSteps == 40000
+MaxVmSteps == 15000
 
 Code   == Recs[pid].bc.code
 KConst == Recs[pid].bc.consts
@@ -54,7 +53,7 @@ ConstVal(i) ==
     [] OTHER -> DK("constant")
 LocalsOfFn(entry) == (CHOOSE i \in 1..Len(KConst) : KConst[i].t = "Fn" /\ KConst[i].ip = entry)
 
-Init ==
+VmInit ==
   /\ pid \in 1..Len(Recs)
   /\ vm = [ip |-> 0, stack |-> <<>>, globals |-> <<>>, frames |-> <<>>, bp |-> 0,
            heap |-> HeapAtLoad, out |-> <<>>, final |-> Null, res |-> DK("running"), n |-> 0,
@@ -221,19 +220,19 @@ OffCode ==
   /\ ~vm.halted /\ vm.ip >= Len(Code)
   /\ Stop(DK("off-code"))
 
-Next == Budget \/ OpConst \/ OpPush \/ OpPop \/ OpBinary \/ OpUnary \/ OpFused \/ OpJump \/ OpJumpIfFalse
+VmNext == Budget \/ OpConst \/ OpPush \/ OpPop \/ OpBinary \/ OpUnary \/ OpFused \/ OpJump \/ OpJumpIfFalse
         \/ OpGlobal \/ OpLocal \/ OpCall \/ OpReturn \/ OpCallBuiltin \/ OpArray \/ OpIndexGet \/ OpIndexSet
         \/ OpHalt \/ OpUnknown \/ OffCode
 
-vars == <<pid, vm>>
-Spec == Init /\ [][Next]_vars
+vmvars == <<pid, vm>>
+VmSpec == VmInit /\ [][VmNext]_vmvars
 
 (* -------------------------- conformance -------------------------------- *)
-UnfoldDepth == 5
-IsPrefixOf(a, b) == Len(a) <= Len(b) /\ \A i \in 1..Len(a) : a[i] = b[i]
+VmUnfoldDepth == 5
+VmIsPrefixOf(a, b) == Len(a) <= Len(b) /\ \A i \in 1..Len(a) : a[i] = b[i]
 
 (* the recorded observation of the real run against this machine's result *)
-Verdict ==
+VmVerdict ==
   LET o == Recs[pid].obs  r == vm.res IN
   IF o.class \in {"Panic", "Abort", "Timeout", "Fault"} THEN [class |-> "mismatch", rule |-> "crash"]
   ELSE IF r.k = "DK" THEN [class |-> "skip", rule |-> r.why]
@@ -241,7 +240,7 @@ Verdict ==
   ELSE IF r.k = "V" THEN
        IF o.class # "Value" THEN [class |-> "mismatch", rule |-> "class"]
        ELSE IF vm.out # o.out THEN [class |-> "mismatch", rule |-> "out"]
-       ELSE IF UEq(Unfold(r.v, vm.heap, UnfoldDepth), o.val) THEN [class |-> "agree", rule |-> "value"]
+       ELSE IF UEq(Unfold(r.v, vm.heap, VmUnfoldDepth), o.val) THEN [class |-> "agree", rule |-> "value"]
        ELSE [class |-> "mismatch", rule |-> "value"]
   ELSE IF o.class # "Err" THEN [class |-> "mismatch", rule |-> "class"]
        ELSE IF o.kind \notin r.s THEN [class |-> "mismatch", rule |-> "errkind"]
@@ -249,11 +248,11 @@ Verdict ==
        ELSE [class |-> "agree", rule |-> "error"]
 
 Summary ==
-  IF vm.res.k = "V" THEN [k |-> "V", v |-> Unfold(vm.res.v, vm.heap, UnfoldDepth)]
+  IF vm.res.k = "V" THEN [k |-> "V", v |-> Unfold(vm.res.v, vm.heap, VmUnfoldDepth)]
   ELSE IF vm.res.k = "E" THEN [k |-> "E", s |-> vm.res.s] ELSE [k |-> "DK", why |-> vm.res.why]
 
-Report ==
-  vm.halted => PrintT(<<"VERDICT", ToJson([id |-> Recs[pid].id, class |-> Verdict.class, rule |-> Verdict.rule,
+VmReport ==
+  vm.halted => PrintT(<<"VERDICT", ToJson([id |-> Recs[pid].id, class |-> VmVerdict.class, rule |-> VmVerdict.rule,
                                            steps |-> vm.n, drift |-> vm.drift, events |-> Len(Ev),
                                            vmres |-> Summary, vmout |-> vm.out])>>)
 =============================================================================
